@@ -206,6 +206,14 @@ func sumsLens(v ssa.Value, depth int) int {
 		}
 	case *ssa.Convert:
 		return sumsLens(x.X, depth+1)
+	case *ssa.Phi:
+		best := 0
+		for _, e := range x.Edges {
+			if n := sumsLens(e, depth+1); n > best {
+				best = n
+			}
+		}
+		return best
 	}
 	return 0
 }
